@@ -3,12 +3,17 @@
 (* unique / rem_dup (C06) and implementation-shaped models of their mechanisms.   *)
 (*                                                                                *)
 (* Abstract values are small integers; only their ORDER and EQUALITY matter.      *)
-(* The harness realises them through order-preserving injections (ints near the   *)
-(* ends of the 64-bit ranges, floats, byte / unicode strings of mixed length),    *)
-(* so an index array returned by the real code is already an abstract value.      *)
+(* The harness realises them through order-preserving injections, so an index     *)
+(* array returned by the real code is already an abstract value.  HOW every array *)
+(* argument is realised is itself part of the case: a REPRESENTATION record       *)
+(* (element types of the two arguments, where in the types' ranges the values are *)
+(* placed, byte orders, memory layouts / container forms - section                *)
+(* "representations" below).  The clauses never read it: the statement quantifies *)
+(* over "any array", so the same answer is demanded in every representation.      *)
 (*                                                                                *)
 (* A case is  [kind |-> "match", a1 : Seq(Int), a2 : Seq(Int), f : <<>>]          *)
 (*        or  [kind |-> "dedup", a1 : Seq(Int), a2 : <<>>,     f : Seq(Int)]      *)
+(* (the model adds  reps : Seq(representation record) ).                          *)
 (* An observation is                                                              *)
 (*   [fn : STRING, err : "none" | "rejected", i1, i2 : Seq(Int), vals : Seq(Int)] *)
 (* with 0-based indices exactly as returned.  fn is one of                        *)
@@ -97,6 +102,151 @@ Failing(c, o) ==
     ELSE {"bad_record"}
 
 Accept(c, o) == Failing(c, o) = {}
+
+\* =================================================================================
+\* Representations: how the abstract arrays of a case become concrete arguments
+\* =================================================================================
+\* A representation is a record
+\*   [t1, t2 : element type of the first / second array argument (match: arr1, arr2;
+\*             de-duplication: arr, flag)
+\*    p1, p2 : placement of the abstract values inside the range of the type(s)
+\*             (match: p1 = p2, one injection serves both arrays so that equal abstract
+\*             values stay equal; de-duplication: values and flags are placed separately)
+\*    o1, o2 : byte order  "native" | "swapped"
+\*    l1, l2 : layout / container form]
+\* Element types: numpy codes (i/u = signed/unsigned integer of 1,2,4,8 bytes, f4/f8,
+\* b1 = bool); S/U = byte/unicode strings sized by numpy, Sw/Uw = declared 3 wider.
+\* Placements (each is a strictly increasing injection, so order and equality survive):
+\*   bottom  from the minimum of the (common) range upwards: type minimum / 0 / -inf /
+\*           False / the empty string included
+\*   top     up to the maximum of the range: type maximum / +inf / True included
+\*   ends    lower half at the minimum, upper half at the maximum
+\*   mid     around the middle: 0 and negatives for signed and floats (the float zero is
+\*           -0.0 on one side and +0.0 on the other: equal values), the sign-bit
+\*           boundary for unsigned, strings spread over all lengths
+\*   small   small integers exactly representable in both an integer and a float type
+\*   alias   the two types are nested and the values that occur only in the array of the
+\*           WIDER type are values the narrower type cannot hold and which a narrowing
+\*           conversion would turn into a value of the other array (integers: congruent
+\*           modulo 2^bits beyond the type's ends; f8 next to an f4 number; a longer
+\*           string extending a full-width one)
+\* Layouts: contig, strided (every 2nd element of a buffer whose gaps hold decoys),
+\*   reversed (negative stride), offset (unaligned field of a packed record), readonly;
+\*   match only: list (python list); length 1 only: zerod (0-d array), npscalar, pyscalar.
+AMIntTypes   == <<"i1", "i2", "i4", "i8", "u1", "u2", "u4", "u8">>
+AMFloatTypes == <<"f4", "f8">>
+AMStrTypes   == <<"S", "Sw", "U", "Uw">>
+AMValueTypes == AMIntTypes \o AMFloatTypes \o AMStrTypes
+AMFlagTypes  == AMIntTypes \o AMFloatTypes \o <<"b1">>
+AMBasicPlaces == <<"bottom", "top", "ends", "mid">>
+AMOrders     == <<"native", "swapped">>
+AMArrayLayouts  == <<"contig", "strided", "reversed", "offset", "readonly">>
+AMScalarLayouts == <<"zerod", "npscalar", "pyscalar">>
+
+AMKindOf(t) == CASE t \in {"i1", "i2", "i4", "i8"} -> "i"
+                 [] t \in {"u1", "u2", "u4", "u8"} -> "u"
+                 [] t \in {"f4", "f8"} -> "f"
+                 [] t \in {"S", "Sw"} -> "S"
+                 [] t \in {"U", "Uw"} -> "U"
+                 [] OTHER -> "b"
+AMBitsOf(t) == CASE t \in {"i1", "u1", "b1"} -> 8
+                 [] t \in {"i2", "u2"} -> 16
+                 [] t \in {"i4", "u4", "f4"} -> 32
+                 [] t \in {"i8", "u8", "f8"} -> 64
+                 [] OTHER -> 0
+AMIsInt(t) == AMKindOf(t) \in {"i", "u"}
+AMIsStr(t) == AMKindOf(t) \in {"S", "U"}
+\* the type has a byte order at all
+AMHasOrder(t) == AMKindOf(t) = "U" \/ AMBitsOf(t) > 8
+\* every value of tn is a value of tw, and tw has more
+AMNested(tn, tw) ==
+    \/ AMIsInt(tn) /\ AMKindOf(tn) = AMKindOf(tw) /\ AMBitsOf(tn) < AMBitsOf(tw)
+    \/ AMKindOf(tn) = "u" /\ AMKindOf(tw) = "i" /\ AMBitsOf(tn) < AMBitsOf(tw)
+    \/ tn = "f4" /\ tw = "f8"
+
+\* placements admitted for a pair of element types of match (<<>>: the pair is outside
+\* the quantifier - byte with unicode strings, strings with numbers, and 64-bit unsigned
+\* with signed integers, which numpy itself compares through float64)
+AMPairPlaces(t1, t2) ==
+    IF t1 = t2 THEN AMBasicPlaces
+    ELSE IF AMIsInt(t1) /\ AMIsInt(t2) THEN
+         IF (t1 = "u8" /\ AMKindOf(t2) = "i") \/ (t2 = "u8" /\ AMKindOf(t1) = "i") THEN <<>>
+         ELSE AMBasicPlaces \o (IF AMNested(t1, t2) \/ AMNested(t2, t1) THEN <<"alias">> ELSE <<>>)
+    ELSE IF AMKindOf(t1) = "f" /\ AMKindOf(t2) = "f" THEN AMBasicPlaces \o <<"alias">>
+    ELSE IF (AMIsInt(t1) /\ AMKindOf(t2) = "f") \/ (AMKindOf(t1) = "f" /\ AMIsInt(t2)) THEN <<"small">>
+    ELSE IF AMIsStr(t1) /\ AMKindOf(t1) = AMKindOf(t2) THEN AMBasicPlaces \o <<"alias">>
+    ELSE <<>>
+AMPartners(t1) == SelectSeq(AMValueTypes, LAMBDA t : AMPairPlaces(t1, t) # <<>>)
+\* (the same written out, for speed; the ASSUME keeps it equal to the definition)
+AMPartnersT(t1) ==
+    CASE AMKindOf(t1) = "i" -> <<"i1", "i2", "i4", "i8", "u1", "u2", "u4", "f4", "f8">>
+      [] t1 = "u8" -> <<"u1", "u2", "u4", "u8", "f4", "f8">>
+      [] AMKindOf(t1) = "u" -> AMIntTypes \o AMFloatTypes
+      [] AMKindOf(t1) = "f" -> AMIntTypes \o AMFloatTypes
+      [] AMKindOf(t1) = "S" -> <<"S", "Sw">>
+      [] OTHER -> <<"U", "Uw">>
+ASSUME \A i \in DOMAIN AMValueTypes : AMPartnersT(AMValueTypes[i]) = AMPartners(AMValueTypes[i])
+AMFlagTypesNoBool == SelectSeq(AMFlagTypes, LAMBDA t : t # "b1")
+
+\* python ints carry no dtype: numpy gives a list int64 when all are below 2^63, uint64 when
+\* all are at or above, and float64 when they straddle 2^63 (u8 placed "mid" or "ends"), which
+\* no longer tells neighbouring integers apart - those lists are not a faithful form of the case
+AMPyOK(t1, t2, p) == ~(t1 = "u8" /\ t2 = "u8" /\ p \in {"mid", "ends"})
+\* layouts admitted for an argument of n elements (py: python containers are faithful)
+AMLayoutsFor(kind, n, py) ==
+    AMArrayLayouts \o (IF kind = "match" /\ py THEN <<"list">> ELSE <<>>)
+                   \o (IF kind = "match" /\ n = 1
+                       THEN (IF py THEN AMScalarLayouts ELSE SelectSeq(AMScalarLayouts, LAMBDA l : l # "pyscalar"))
+                       ELSE <<>>)
+\* python containers carry no dtype, hence no byte order
+AMOrdersFor(t, l) == IF AMHasOrder(t) /\ l \notin {"list", "pyscalar"} THEN AMOrders ELSE <<"native">>
+
+AMInSeq(x, s) == \E i \in DOMAIN s : s[i] = x
+
+AMRepOK(c, r) ==
+    /\ DOMAIN r = {"t1", "t2", "p1", "p2", "o1", "o2", "l1", "l2"}
+    /\ IF c.kind = "match"
+       THEN /\ AMInSeq(r.t1, AMValueTypes) /\ AMInSeq(r.t2, AMValueTypes)
+            /\ AMInSeq(r.p1, AMPairPlaces(r.t1, r.t2)) /\ r.p2 = r.p1
+            /\ AMInSeq(r.l1, AMLayoutsFor("match", Len(c.a1), AMPyOK(r.t1, r.t2, r.p1)))
+            /\ AMInSeq(r.l2, AMLayoutsFor("match", Len(c.a2), AMPyOK(r.t1, r.t2, r.p1)))
+       ELSE /\ AMInSeq(r.t1, AMValueTypes) /\ AMInSeq(r.p1, AMBasicPlaces)
+            /\ AMInSeq(r.t2, AMFlagTypes) /\ AMInSeq(r.p2, AMBasicPlaces)
+            \* a bool flag array has two levels only
+            /\ r.t2 = "b1" => \A j \in DOMAIN c.f : c.f[j] <= 2
+            /\ AMInSeq(r.l1, AMLayoutsFor("dedup", Len(c.a1), TRUE)) /\ AMInSeq(r.l2, AMLayoutsFor("dedup", Len(c.f), TRUE))
+    /\ AMInSeq(r.o1, AMOrdersFor(r.t1, r.l1)) /\ AMInSeq(r.o2, AMOrdersFor(r.t2, r.l2))
+
+\* ---- the covering design: representation number g (any natural number) of a case ------
+\* mixed-radix decoding of g over the admitted choices, dimension by dimension, so that a
+\* set of g spread over a large range meets every combination of a few dimensions
+AMPick(s, g) == s[(g % Len(s)) + 1]
+AMDesignRep(c, g) ==
+    IF c.kind = "match" THEN
+      LET t1 == AMPick(AMValueTypes, g)                  g1 == g \div Len(AMValueTypes)
+          ps == AMPartnersT(t1)
+          t2 == AMPick(ps, g1)                           g2 == g1 \div Len(ps)
+          pl == AMPairPlaces(t1, t2)
+          p  == AMPick(pl, g2)                           g3 == g2 \div Len(pl)
+          L1 == AMLayoutsFor("match", Len(c.a1), AMPyOK(t1, t2, p))
+          l1 == AMPick(L1, g3)                           g4 == g3 \div Len(L1)
+          L2 == AMLayoutsFor("match", Len(c.a2), AMPyOK(t1, t2, p))
+          l2 == AMPick(L2, g4)                           g5 == g4 \div Len(L2)
+          o1 == AMPick(AMOrdersFor(t1, l1), g5)          g6 == g5 \div 2
+          o2 == AMPick(AMOrdersFor(t2, l2), g6)
+      IN [t1 |-> t1, t2 |-> t2, p1 |-> p, p2 |-> p, o1 |-> o1, o2 |-> o2, l1 |-> l1, l2 |-> l2]
+    ELSE
+      LET fts == IF \A j \in DOMAIN c.f : c.f[j] <= 2 THEN AMFlagTypes
+                 ELSE AMFlagTypesNoBool
+          t2 == AMPick(fts, g)                           g1 == g \div Len(fts)
+          p2 == AMPick(AMBasicPlaces, g1)                g2 == g1 \div Len(AMBasicPlaces)
+          t1 == AMPick(AMValueTypes, g2)                 g3 == g2 \div Len(AMValueTypes)
+          p1 == AMPick(AMBasicPlaces, g3)                g4 == g3 \div Len(AMBasicPlaces)
+          l1 == AMPick(AMArrayLayouts, g4)               g5 == g4 \div Len(AMArrayLayouts)
+          l2 == AMPick(AMArrayLayouts, g5)               g6 == g5 \div Len(AMArrayLayouts)
+          o1 == AMPick(AMOrdersFor(t1, l1), g6)          g7 == g6 \div 2
+          o2 == AMPick(AMOrdersFor(t2, l2), g7)
+      IN [t1 |-> t1, t2 |-> t2, p1 |-> p1, p2 |-> p2, o1 |-> o1, o2 |-> o2, l1 |-> l1, l2 |-> l2]
 
 \* =================================================================================
 \* Implementation-shaped models (numpy_util.py, one operator per code step)
